@@ -48,7 +48,7 @@ def requiredEntries : List Name := [
 /-- pseudo nodes of the extractor: always present, always forbidden -/
 def pseudoNodes : List Name := [
   name! "<indirect call with no address-taken candidate>", name! "<inline asm>", name! "<call the extractor could not parse>",
-  name! "<atomic read-modify-write instruction>"]
+  name! "<atomic read-modify-write in a loop>"]
 
 /-- names of the `observe_at` clause (allocator, deallocator, operator new/delete, pthread mutex) and of the
 exception primitives: a node carrying one of these names must be in the forbidden set -/
@@ -74,7 +74,7 @@ theorem min_cert_contains_entries : ContainsAll Gen.graph.cert Gen.graph.entries
 
 /-- Obligation 3: the certificate contains no allocator, deallocator, lock, exception-allocation or stream
 function, none of the pseudo nodes standing for calls the extractor could not resolve, and not the pseudo node
-that every function containing an atomic read-modify-write instruction has an edge to. -/
+that every function containing an atomic read-modify-write instruction inside a loop has an edge to. -/
 theorem min_cert_avoids_forbidden : Avoids Gen.graph.cert Gen.graph.forbidden :=
   avoidsB_sound (by decide +kernel)
 
@@ -133,7 +133,7 @@ theorem shipped_safe : Gen17.graph.Safe :=
 hypotheses): no call path of any length from a realtime entry point (building, measuring and reading messages
 and bundles, matching, `Ports::dispatch` with and without location tracking into every sugar callback, default
 `RtData::reply/broadcast` forwarding, `ThreadLink` write/read/hasNext) reaches a function that allocates, frees,
-locks or contains an atomic read-modify-write instruction; and every function without a body that such a path
+locks or contains an atomic read-modify-write instruction inside a loop; and every function without a body that such a path
 reaches is a whitelisted leaf. -/
 theorem rt_path_never_allocates_or_locks : Gen.graph.Safe ∧ Gen17.graph.Safe :=
   ⟨min_safe, shipped_safe⟩
